@@ -6,6 +6,8 @@ import (
 	"math/rand/v2"
 	"strings"
 
+	"github.com/theory/sqljson/path"
+
 	"verif/internal/gen"
 	"verif/internal/h"
 )
@@ -20,7 +22,7 @@ func init() {
 			"Non-trivial: Query(P) yields at least one item; distinct by (path, split point, document, decoding)",
 		Run:          runC09,
 		Replay:       replayC09,
-		MinExercised: map[string]int64{"split.items": 5000, "split.err": 500, "P-fails": 200, "var-head": 1000, "outer-current": 5000, "literal-head": 300, "context": 10000, "quiescent": 10000},
+		MinExercised: map[string]int64{"split.items": 5000, "split.err": 500, "split.silent": 3000, "P-fails": 200, "var-head": 1000, "outer-current": 5000, "literal-head": 300, "context": 10000, "quiescent": 10000},
 		Assumptions: []string{
 			"S contains no $ (root-independent); strict-mode splits whose prefix contains .** are excluded (the structural-error flag legitimately spans the continuation); keyvalue ids are masked (base object differs)",
 			"paths that expand object members get single-member objects so that the executions are comparable",
@@ -79,7 +81,10 @@ func idsFlow(n *gen.N) bool {
 	flow := false
 	for x := n; x != nil; x = x.Next {
 		if x.K == gen.KMethod && x.S == "keyvalue" && x.Next != nil {
-			flow = true
+			// (.key / .value right after it leave the id behind)
+			if nx := x.Next; !(nx.K == gen.KKey && (nx.S == "key" || nx.S == "value")) {
+				flow = true
+			}
 		}
 		for _, sub := range []*gen.N{x.A, x.B} {
 			if sub != nil && hasMethod(sub, "keyvalue") {
@@ -120,6 +125,7 @@ type c09Case struct {
 	useNum bool
 	tz     bool
 	vars   string
+	silent bool
 }
 
 func (k *c09Case) texts() (full, p, s string) {
@@ -160,6 +166,10 @@ func checkSplit(c *h.Ctx, k *c09Case) {
 			c.Held("context")
 			c.Held("quiescent")
 		}
+	}
+	if k.silent {
+		checkSplitSilent(c, k, pf, pp, ps, doc, opts, cs, hook)
+		return
 	}
 	of := h.Call("query", pf, doc, opts)
 	op := h.Call("query", pp, doc, opts)
@@ -223,6 +233,70 @@ func checkSplit(c *h.Ctx, k *c09Case) {
 		if c.WantSample("split") {
 			c.Sample("split", map[string]any{"P": ptxt, "S": stxt, "doc": k.doc, "result": maskedList(of.Items)})
 		}
+	}
+}
+
+// checkSplitSilent is the composition law under WithSilent: "failing where
+// the first of those fails" then reads "ending where the first of those
+// fails, with what that one had found". P itself must succeed.
+func checkSplitSilent(c *h.Ctx, k *c09Case, pf, pp, ps *path.Path, doc any, opts h.Opts, cs h.Case, hook func(*h.Out)) {
+	so := opts
+	so.Silent = true
+	cs.Silent = true
+	op := h.Call("query", pp, doc, opts)
+	of := h.Call("query", pf, doc, so)
+	c.Eval(2)
+	hook(of)
+	hook(op)
+	if op.Class != h.OK || of.Class == h.Panic {
+		c.Skip("split.silent", "P-fails-or-panic")
+		return
+	}
+	var want []any
+	hard := ""
+	for _, x := range op.Items {
+		vx := h.Call("query", ps, x, opts)
+		c.Eval(1)
+		hook(vx)
+		if vx.Class == h.OK {
+			want = append(want, vx.Items...)
+			continue
+		}
+		if vx.Class == h.Soft {
+			sx := h.Call("query", ps, x, so)
+			c.Eval(1)
+			hook(sx)
+			if sx.Class != h.OK {
+				c.Skip("split.silent", "silent-suffix-fails-is-C08")
+				return
+			}
+			want = append(want, sx.Items...)
+			break
+		}
+		if vx.Class == h.Hard {
+			hard = vx.ErrText()
+			break
+		}
+		c.Skip("split.silent", "panic-or-invalid-is-C05")
+		return
+	}
+	if len(op.Items) > 0 {
+		c.Distinct("silent", cs.Path, fmt.Sprint(k.split), k.doc, fmt.Sprint(k.useNum, k.tz))
+	}
+	feat := h.F("mode", modeName(k.lax))
+	switch {
+	case hard != "":
+		if of.Class != h.Hard || of.ErrText() != hard {
+			c.Violate("split.silent", feat, fmt.Sprintf("Query($ S, x) fails with the non-suppressible %s for an item x of P, but silent Query(P S) returned %s", hard, of.Summary()), cs)
+		} else {
+			c.Held("split.silent")
+		}
+	case of.Class != h.OK:
+		c.Violate("split.silent", feat, fmt.Sprintf("silent Query(P S) returned %s; per item of P the suffix gives %s", of.Summary(), maskedList(want)), cs)
+	case maskedList(of.Items) != maskedList(want):
+		c.Violate("split.silent", feat, fmt.Sprintf("silent Query(P S) = %s but the per-item evaluation up to and including the first failing item gives %s (items of P: %s)", maskedList(of.Items), maskedList(want), maskedList(op.Items)), cs)
+	default:
+		c.Held("split.silent")
 	}
 }
 
@@ -444,7 +518,7 @@ func replayC09(c *h.Ctx, cs h.Case) {
 		ap := gen.FromAST(p.AST)
 		var split int
 		fmt.Sscan(cs.Extra["split"], &split)
-		checkSplit(c, &c09Case{lax: ap.Lax, chain: ap.Root, split: split, doc: cs.Doc, useNum: cs.UseNum, tz: cs.TZ, vars: cs.Vars})
+		checkSplit(c, &c09Case{lax: ap.Lax, chain: ap.Root, split: split, doc: cs.Doc, useNum: cs.UseNum, tz: cs.TZ, vars: cs.Vars, silent: cs.Silent})
 	case "outer-current":
 		p, err, pan := h.ParseSafe(cs.Path)
 		if err != nil || pan != "" {
@@ -496,6 +570,25 @@ func runC09(c *h.Ctx) {
 			vars = stdVars1
 		}
 		doc := gen.Doc(r, d)
+		if i%8 == 3 {
+			// a filter whose condition looks a value up in a variable by a
+			// member of the current item ($arr[@.a]): the suffix is still
+			// root-independent, but its operand differs from item to item
+			pre, cond, cdoc := crossRef(r, true)
+			chain = pre
+			chain.Append(&gen.N{K: gen.KFilter, A: cond})
+			if r.IntN(2) == 0 {
+				// (the items have several members: nothing that expands them)
+				if st := g.Step(1, false, false); !exposesOrder(&gen.Path{Root: st}) && !hasMethod(st, "keyvalue") {
+					chain.Append(st)
+				}
+			}
+			nsteps = 0
+			for x := chain.Next; x != nil; x = x.Next {
+				nsteps++
+			}
+			doc = cdoc
+		}
 		useNum := r.IntN(2) == 0
 		tz := r.IntN(3) == 0
 		// every split point
@@ -532,7 +625,7 @@ func runC09(c *h.Ctx) {
 				c.Skip("split.items", "member-order-open")
 				continue
 			}
-			checkSplit(c, &c09Case{lax: lax, chain: chain, split: split, doc: doc, useNum: useNum, tz: tz, vars: vars})
+			checkSplit(c, &c09Case{lax: lax, chain: chain, split: split, doc: doc, useNum: useNum, tz: tz, vars: vars, silent: (i+split)%4 == 0})
 		}
 		// @ after nested constructs inside a filter
 		if i%2 == 0 {
